@@ -22,6 +22,52 @@ ORD_ONE = re.compile(r"sizeof\s*\([^()]*\)\s*==\s*1\b|\b1\s*==\s*sizeof")
 COPY_TRAITS = ("is_trivially_copyable", "is_trivial_v", "is_trivial<", "is_trivially_copy_assignable", "is_trivially_move_assignable")
 
 
+def polarity(c):
+    """(core condition, negated?) of a condition string as collected by guarded_nodes: the else-branch wrapper `!(...)` and a
+    leading `not` / `!` of a simple (non-compound) condition are peeled off"""
+    s0, neg = c.strip(), False
+    while True:
+        if s0.startswith("!(") and s0.endswith(")"):
+            s0, neg = s0[2:-1].strip(), not neg
+        elif s0.startswith("(") and s0.endswith(")") and s0.count("(") == s0.count(")") and _balanced_outer(s0):
+            s0 = s0[1:-1].strip()
+        elif (s0.startswith("not ") or (s0.startswith("!") and not s0.startswith("!="))) and not re.search(r"\band\b|\bor\b|&&|\|\|", s0):
+            s0, neg = (s0[4:] if s0.startswith("not ") else s0[1:]).strip(), not neg
+        else:
+            return s0, neg
+
+
+def _balanced_outer(s0):
+    d = 0
+    for i, ch in enumerate(s0):
+        if ch == "(":
+            d += 1
+        elif ch == ")":
+            d -= 1
+            if d == 0 and i != len(s0) - 1:
+                return False
+    return True
+
+
+def positive_conditions(conds):
+    """the conditions known to HOLD at a node (negated ones dropped; a negated negation counts as positive)"""
+    out = []
+    for c in conds:
+        core, neg = polarity(c)
+        if not neg:
+            out.append(core)
+    return out
+
+
+def negative_conditions(conds):
+    out = []
+    for c in conds:
+        core, neg = polarity(c)
+        if neg:
+            out.append(core)
+    return out
+
+
 def _children(n):
     for k, v in n.items():
         if isinstance(v, dict):
@@ -91,7 +137,7 @@ def check_mem_shortcut(f):
             continue
         kind = m.group(2)
         text = " && ".join(conds)
-        pos = " && ".join(c for c in conds if not c.startswith("!("))
+        pos = " && ".join(positive_conditions(conds))
         if kind == "cmp":
             eq = parent is not None and parent.get("k") == "bin" and parent.get("op") in ("==", "!=") and (
                 astx.int_value(parent.get("r")) == 0 or astx.int_value(parent.get("l")) == 0)
@@ -433,7 +479,7 @@ def char_cast_area(chk, db, files, rule="CHARCAST"):
             n += 1
             label = "%s :: `%s`" % (astx.sig(f), astx.show(x, 50))
             chk.instance(rule)
-            ok = any(ONE_BYTE_GUARD.search(c) and not c.startswith("!(") for c in conds)
+            ok = any(ONE_BYTE_GUARD.search(c) for c in positive_conditions(conds))
             chk.obligation(rule, label, ok)
             if not ok:
                 chk.violation(rule, label, "character-narrowed", "%s: `%s` converts a character of the traits' own type to `%s` under `%s`; for a "
